@@ -16,7 +16,9 @@ LEVEL = "exploration"
 RULE = ("round-trip units: estimators created with an explicit Config (every field at a non-default value class) "
         "over random definitions with 0-3 controls and 1-3 sensors x 1-3 readings: set_params(**get_params()), "
         "sklearn.base.clone, set_params(<config field>=v) for every field (exactly that field changes), unknown "
-        "names refused.  fit units: fit on 3-12 finite rows at several scales: either MinimizationFailure or an "
+        "names refused (None and an empty mapping are different parameter values).  fit units: fit on 3-12 finite "
+        "rows at several scales, every fourth with noise assignments scaled by 1e-150..1e160, every fourth with "
+        "extra_validation, every fourth with unsorted unequal sensors: either MinimizationFailure or an "
         "estimator with identical model / sensor models / calibration / config whose noise maps name exactly the "
         "original controls, sensors and readings, all finite, process noise > 0; any other exception is a "
         "violation.  non-trivial = program with >=1 control and >=2 readings in total; distinct = "
